@@ -302,14 +302,15 @@ def _image_same(g):
 
 
 def _glyph_clear_image(g, k):
-    _image_set(g, k)
+    # (a call of its own, never preceded by another mutator that would dirty the glyph anyway; a glyph without an
+    # image gets one instead)
+    if g.image.fileName is None:
+        _image_set(g, k)
+        return "image="
     g.clearImage()
 
 
 def _glyph_clear_all(g, k):
-    # (an anchor and an image first, so that there is something to clear)
-    _glyph_append("anchor")(g, k)
-    _image_set(g, k)
     g.clear()
 
 
@@ -395,6 +396,27 @@ def _layer_order(ls, k):
     ls.layerOrder = list(reversed(ls.layerOrder))
 
 
+def _layerset_delete(ls, k):
+    """delete the layer that joined last (with everything in it) - unless that is the default layer: then add one"""
+    layer = _newest([ls[n] for n in ls.layerOrder])
+    if layer is ls.defaultLayer:
+        ls.newLayer("del%d" % k)
+        return "newLayer"
+    del ls[layer.name]
+
+
+def _set_delete(prefix, make):
+    """image / data set: delete one of the files the catalogue's own item assignment made (no glyph refers to them);
+    a set without such a file gets one instead"""
+    def eff(s, k):
+        names = sorted(n for n in s.fileNames if n.startswith(prefix) and not n.startswith("img"))
+        if not names:
+            s[make(k)[0]] = make(k)[1]
+            return "__setitem__"
+        del s[names[0]]
+    return eff
+
+
 def _layer_delete_glyph(l, k):
     """delete the glyph that joined the layer last; whether the font's glyph order follows (the name is listed and no
     other layer has a glyph of that name) is read before the call and names the variant"""
@@ -437,7 +459,7 @@ CATALOGUE = {
         ("layerOrder=", _layer_order,
          lambda ls: (setattr(ls, "layerOrder", list(ls.layerOrder)) or True)),
         ("newLayer", _do(lambda ls, k: ls.newLayer("ln%d" % k)), None),
-        ("__delitem__", _do(lambda ls, k: ls.newLayer("del%d" % k), lambda ls, k: ls.__delitem__("del%d" % k)), None),
+        ("__delitem__", _layerset_delete, None),
         ("defaultLayer=", None, lambda ls: (setattr(ls, "defaultLayer", ls.defaultLayer) or True)),
     ],
     "layer": [
@@ -507,10 +529,10 @@ CATALOGUE = {
     "features": [_set("text", ["# a\n", "# b\n", "# c\n"])],
     "images": [("__setitem__", _do(lambda s, k: s.__setitem__("i%d.png" % (k % 3), fg.png_bytes(20 + k))),
                 lambda s: bool(s.fileNames) and (s.__setitem__(sorted(s.fileNames)[0], s[sorted(s.fileNames)[0]]) or True)),
-               ("__delitem__", _do(lambda s, k: s.__setitem__("d%d.png" % k, fg.png_bytes(40 + k)), lambda s, k: s.__delitem__("d%d.png" % k)), None),
+               ("__delitem__", _set_delete("i", lambda k: ("i%d.png" % (k % 3), fg.png_bytes(60 + k))), None),
                ("__setitem__unread", None, _image_same_as_disk)],
     "data": [("__setitem__", _do(lambda s, k: s.__setitem__("f%d.txt" % (k % 3), fg.data_bytes(20 + k))), None),
-             ("__delitem__", _do(lambda s, k: s.__setitem__("d%d.txt" % k, fg.data_bytes(40 + k)), lambda s, k: s.__delitem__("d%d.txt" % k)), None)],
+             ("__delitem__", _set_delete("f", lambda k: ("f%d.txt" % (k % 3), fg.data_bytes(60 + k))), None)],
 }
 
 def _poison_anchor(g, k):
